@@ -125,6 +125,13 @@ func exec(w *hist.W, ev []uint64) []uint64 {
 	case 3:
 		x := b(ev[1:])
 		return doUnpad(padding.PadInPlace(append([]byte(nil), x...)))
+	case 8:
+		lx := int(ev[1])
+		x, tail := b(ev[2:2+lx]), b(ev[2+lx:])
+		arr := make([]byte, len(x)+len(tail))
+		copy(arr, x)
+		copy(arr[len(x):], tail)
+		return doUnpad(padding.PadInPlace(arr[:len(x):len(arr)]))
 	case 4, 5:
 		ss, _ := decStrs(int(ev[1]), ev[2:])
 		strs := make([]string, len(ss))
@@ -231,7 +238,13 @@ func gen(w *hist.W, kind int, r *rand.Rand) []uint64 {
 			tail[i] = byte(1 + r.IntN(255)) // dirty
 		}
 		w.Count(fmt.Sprintf("pad.cap_%s", map[bool]string{true: "inplace", false: "alloc"}[tl >= need]), 1)
-		ev := append([]uint64{1, uint64(len(x))}, u(x)...)
+		code := uint64(1)
+		if r.IntN(3) == 0 {
+			// the round trip INSIDE the re-used buffer: PadInPlace into dirty spare capacity, then UnpadInPlace
+			code = 8
+			w.Count("round.reused_buffer", 1)
+		}
+		ev := append([]uint64{code, uint64(len(x))}, u(x)...)
 		return append(ev, u(tail)...)
 	case 2: // unpad on arbitrary / crafted input
 		var d []byte
